@@ -70,13 +70,13 @@ EXTRA = {
  'C11': '; def-use rule: the description text reaches the metagrammar parser unmodified',
  'C02': '; evaluation of the emitted postfix reduction test for every stack depth / row relation; OperatorTable.create partially evaluated on every sequence of row kinds (levels strictly increase); forms of one bucket (operand + mixfix forms, rows of one kind) combined with Longest in row order',
  'C03': '; atomicity rule on compound bound texts; Choice/Longest/Opt configurations with a consuming alternative (an incomplete list leaves no trace)',
- 'C05': '; marker-based free-variable protocol on skeletons; E1 rules on the List configurations with name bounds; inline Python evaluated in place (route inline-python); memo per call; Let binds only on success of the bound expression; entry-closure capture rule; call-object key covers func, args and kwargs',
+ 'C05': '; marker-based free-variable protocol on skeletons; E1 rules on the List configurations with name bounds; inline Python evaluated in place (route inline-python); memo per call; Let binds only on success of the bound expression; entry-closure capture rule; call-object key covers func, args and kwargs; inline-Python repetition counts stay one operand of the emitted length tests (bound atomicity)',
  'C06': '; wrapper-owner rule; parameter-order rule; keyword arguments travel by name in call objects of named grammars; entry-closure capture rule (class parameters captured outside the generated entry lambda)',
- 'C07': '; every path that starts a generator has consulted the memo; driver representation with the active frame outside the stack',
+ 'C07': '; every path that starts a generator has consulted the memo; driver representation with the active frame outside the stack; a rule passed as a template argument is emitted as the callee a plain reference requests (same memo key; Ref.argumentize skeletons)',
  'C08': '; driver coordinates not rebound; memo per call; the value leaves _finalize_parse_info only after the conversion walk; conversion walk rules (identity de-duplication, every object once); entry-closure capture rule; status register holds booleans only (E1 protocol rule on every expression class)',
  'C09': '; position functions read no module-level container and carry no decorator; last_position built from the unmoved end position; failure exits of the lookaheads leave the start position',
  'C10': '; position functions read no module-level container and carry no decorator; second line-map representation (index of the last line feed); span start captured before anything moves the position in every emitted class function; every match builds a fresh instance to carry its span',
- 'C13': '; import-shadow rule; synthetic ignore rule reaches named patterns by late-bound reference (anonymous ones may be matched in place); only explicit super.R reads the lexical parent context; rule functions store nothing computed from their context at module level',
+ 'C13': '; import-shadow rule; synthetic ignore rule reaches named patterns by late-bound reference (anonymous ones may be matched in place); only explicit super.R reads the lexical parent context; rule functions store nothing computed from their context at module level; lexical store rule on grammar.py (ancestor descriptions are read afresh on every Grammar() call, no cache keyed by module name)',
  'C16': '; identity-keyed table rule, single-pass rule, object-returned-without-callbacks rule, metadata goes onto a copy of the callback result (never into the object a callback returned); only lists are containers; truthiness rule',
  'C17': '; binders and never-failing nodes at every depth of the split threshold; a driver step never walks its own stack',
  'C18': '; namespace mutation rule (vars()/globals()/__dict__); inline Python of the grammar evaluated inside rule functions, never hoisted to module level (route inline-python); stores into class objects (cls / type(x) / x.__class__)',
